@@ -16,11 +16,14 @@
          valid and invalid-backend-ref if not; shares are non-negative and sum to exactly 100.00;
          a zero-weight backend has share 0; every share is within 0.01 of 100*w/W, except for at
          most one backend (the one that takes the remainder), which is within 0.01*(n-1).
-   Input classes of the two repaired defects (both need a zero-weight LAST backend):
-     class_D8  every other weight divides evenly (w*10000 mod W = 0): only floating-point noise can
-               break the remainder ("-0.00")                                          -> code 108
-     class_D9  some other weight does not divide evenly: the as-found remainder rule gives the
-               zero-weight last backend at least 0.01%                                -> code 109 *)
+   Input classes of the two repaired defects (both: non-zero total and a zero-weight LAST backend):
+     class_D8  every other weight divides evenly (w*10000 mod W = 0), so that the exact remainder is
+               0 and only floating-point noise can make it "-0.00"; reported as 108 when, in
+               addition, the last line is active with a percent NGINX cannot read
+     class_D9  (any other weights): the as-found rule hands whatever rounding loses to the last
+               backend; reported as 109 when, in addition, the last line is active with a readable
+               non-zero percent (the zero-weight backend receives traffic)
+   Any other failure of the oracle is code 2. *)
 From Coq Require Import List ZArith String Ascii Bool Arith.
 From NGF Require Export lib.CaseLib C15.Model C15.Ngx.
 Import ListNotations.
@@ -196,29 +199,42 @@ Definition var_of_pass (pass : string) : option string :=
   | None => None
   end.
 
-Definition oracle_group (blocks : list block) (g : group) (pass : string) : bool :=
+(* the block the rule's proxy_pass refers to: the variable must name exactly one block *)
+Definition group_block (blocks : list block) (pass : string) : option block :=
+  match var_of_pass pass with
+  | None => None
+  | Some v =>
+      match filter (fun b => String.eqb (bl_var b) v) blocks with
+      | [b] => Some b
+      | _ => None
+      end
+  end.
+
+Definition in_scope (g : group) : bool :=
+  let ws := map b_weight (g_backends g) in
+  (2 <=? List.length ws)%nat && weights_in_range ws.
+
+Definition oracle_block (g : group) (b : block) : bool :=
   let bs := g_backends g in
   let ws := map b_weight bs in
-  if (List.length bs <? 2)%nat || negb (weights_in_range ws) then true
-  else
-    match var_of_pass pass with
+  let ls := bl_lines b in
+  match ngx_shares ls with
+  | None => false
+  | Some shs =>
+      if zsum ws =? 0 then
+        zsum (map2 (fun l sh => if String.eqb (l_value l) invalid_backend_ref then sh else 0)
+                   ls shs) =? max_hundredths
+      else
+        list_eqb String.eqb (map l_value ls) (map split_value bs) && shares_ok ws shs
+  end.
+
+Definition oracle_group (blocks : list block) (g : group) (pass : string) : bool :=
+  if in_scope g then
+    match group_block blocks pass with
+    | Some b => oracle_block g b
     | None => false
-    | Some v =>
-        match filter (fun b => String.eqb (bl_var b) v) blocks with
-        | [b] =>
-            let ls := bl_lines b in
-            match ngx_shares ls with
-            | None => false
-            | Some shs =>
-                if zsum ws =? 0 then
-                  zsum (map2 (fun l sh => if String.eqb (l_value l) invalid_backend_ref then sh else 0)
-                             ls shs) =? max_hundredths
-                else
-                  list_eqb String.eqb (map l_value ls) (map split_value bs) && shares_ok ws shs
-            end
-        | _ => false
-        end
-    end.
+    end
+  else true.
 
 Fixpoint last_is_zero (ws : list Z) : bool :=
   match ws with [] => false | [w] => w =? 0 | _ :: t => last_is_zero t end.
@@ -233,13 +249,31 @@ Definition class_D8 (g : group) : bool :=
 
 Definition class_D9 (g : group) : bool :=
   let ws := map b_weight (g_backends g) in
-  (0 <? zsum ws) && last_is_zero ws && negb (all_but_last_divide ws).
+  (0 <? zsum ws) && last_is_zero ws.
+
+(* symptoms of the two repaired defects on the last line of the block *)
+Definition last_line_unreadable (b : block) : bool :=
+  match rev (bl_lines b) with
+  | l :: _ => l_active l && match ngx_atofp2 (l_percent l) with None => true | Some _ => false end
+  | [] => false
+  end.
+
+Definition last_line_gets_traffic (b : block) : bool :=
+  match rev (bl_lines b) with
+  | l :: _ => l_active l && match ngx_percent (l_percent l) with Some _ => true | None => false end
+  | [] => false
+  end.
 
 Definition code_group (blocks : list block) (g : group) (pass : string) : list nat :=
   if oracle_group blocks g pass then []
-  else if class_D8 g then [code_known 8]
-  else if class_D9 g then [code_known 9]
-  else [code_violation].
+  else
+    match group_block blocks pass with
+    | Some b =>
+        if class_D8 g && last_line_unreadable b then [code_known 8]
+        else if class_D9 g && last_line_gets_traffic b then [code_known 9]
+        else [code_violation]
+    | None => [code_violation]
+    end.
 
 Definition oracle_codes (c : case) (blocks : list block) : list nat :=
   if Nat.eqb (List.length (c_groups c)) (List.length (c_pass c))
